@@ -298,7 +298,10 @@ where
                         ev.push(json!({"op": "CLUpdate", "suite": suite, "key": ki, "n": n, "U": u, "new_ok": b3(r.clone().map(|x| x.0)), "old_ok": b3(r.map(|x| x.1))}));
                     }
                     // mismatch families (the issuer must not sign): only for a sample of (n, U) in the quick tier
-                    if !thorough && !(n == maxn && (u == vec![n - 1] || u.len() == n)) && !(n == 1) {
+                    // mismatch families and leaf perturbations for a sample of (n, U): all of n <= 2 (thorough: n <= 3 with
+                    // at most two hidden), the last position alone, everything hidden; first two keys only
+                    let sampled = n == 1 || (n == maxn && (u == vec![n - 1] || u.len() == n)) || (thorough && (n <= 2 || (n == 3 && u.len() <= 2)));
+                    if !sampled || ki >= 2 {
                         continue;
                     }
                     let mut m_other = msgs.clone();
@@ -384,7 +387,8 @@ where
                 };
                 let honest = guard(|| proof.proof_verify(&cpk, &ks.pk, &bases_n, &revealed, &u, n));
                 ev.push(json!({"op": "CLPoK", "suite": suite, "key": ki, "n": n, "U": u, "mismatch": "none", "res": b3(honest)}));
-                if !thorough && !(n == maxn || u.len() == n || u.is_empty()) {
+                let sampled = if thorough { n <= 3 || u.len() == n || u.is_empty() || u == vec![n - 1] } else { n == maxn || u.len() == n || u.is_empty() };
+                if !sampled || ki >= 2 {
                     continue;
                 }
                 // single edits of the statement
